@@ -20,6 +20,8 @@ R(n) == [name |-> S(n), expr |-> Val(St(n))]
 F(n) == [name |-> n, cacheable |-> TRUE, suspend |-> 0, script |-> <<[r |-> "echo"]>>]
 OpPool == {
   [op |-> "with_rule", rule |-> R("r1")], [op |-> "with_rule", rule |-> R("r2")],
+  [op |-> "with_rule", rule |-> [name |-> S("r1"), expr |-> Val(I(7))]],            \* same name, different body
+  [op |-> "with_rules", rules |-> <<[name |-> S("r2"), expr |-> Val(I(8))], R("r3")>>],
   [op |-> "with_rules", rules |-> <<>>], [op |-> "with_rules", rules |-> <<R("r1")>>],
   [op |-> "with_rules", rules |-> <<R("r2")>>], [op |-> "with_rules", rules |-> <<R("r1"), R("r2")>>],
   [op |-> "with_rules", rules |-> <<R("r2"), R("r3"), R("r2")>>],
@@ -34,7 +36,7 @@ OpPool == {
 
 \* candidate function names: every reserved word, identifiers, near-identifiers
 NamePool == Reserved \cup {
-  S("f"), S("fn1"), S("_"), S("_x"), S("_1"), S("x_"), S("x1"), S("X"), S("facts"), S("iff"), S("android"), S("int8"),
+  S("Round"), S("IF"), S("Key"), S("Date_Time"), S("True"), S("f"), S("fn1"), S("_"), S("_x"), S("_1"), S("x_"), S("x1"), S("X"), S("facts"), S("iff"), S("android"), S("int8"),
   S("1x"), S("1"), <<>>, S("_ x"), S("_-"), S("a b"), S("a-b"), S("a.b"), S(" a"), S("a "), S("-"), S("_!"),
   <<233>>, <<97, 233>>, <<20013>>, <<97, 183, 98>>, <<183, 97>>, <<1633>>, <<97, 1633>>, <<95, 183>>,
   <<128512>>, <<97, 128512>>, <<97, 768>>, <<768>>, <<95, 160, 120>> }
